@@ -343,3 +343,19 @@ Lemma else_block_leaks_scope :
   (exists st, exec 20 else_block_prog (init_state [] []) = (ONormal, st) /\ assocN 0%N (users st) = Some (Some 1))
   /\ (exists st, call else_block_prog 100 [] [] = MDone st /\ assocN 0%N (users st) = Some (Some 2) /\ length (scopes st) = 2%nat).
 Proof. split; eexists; vm_compute; repeat split; reflexivity. Qed.
+
+(* BEGIN DECLARE v0 INT DEFAULT 0; DECLARE v1 INT DEFAULT 0; SET v1 = NULL;
+   REPEAT SET v0 = v0 + 1; IF 3 <= v0 THEN SET v1 = 1; END IF; UNTIL v1 = 1 END REPEAT; SET @u0 = v0; END *)
+Definition until_null_prog : stmt :=
+  blk 0 (SSeq (dcl 0 0) (SSeq (dcl 1 0) (SSeq (set_ 1 ENull)
+        (SSeq (SRepeat 0%N (SSeq (set_ 0 (EBin Add (var 0) (EConst 1)))
+                                 (SIf (EBin Le (EConst 3) (var 0)) (set_ 1 (EConst 1)) SSkip))
+                           (EBin Eq (var 1) (EConst 1)))
+              (setu 0 (var 0)))))).
+
+(* REPEAT is compiled as IF NOT cond: when UNTIL evaluates to NULL, NOT NULL is NULL, the IF fails and the loop is left,
+   although the condition is not true *)
+Lemma until_null_leaves_loop :
+  (exists st, exec 40 until_null_prog (init_state [] []) = (ONormal, st) /\ assocN 0%N (users st) = Some (Some 3))
+  /\ (exists st, call until_null_prog 200 [] [] = MDone st /\ assocN 0%N (users st) = Some (Some 1)).
+Proof. split; eexists; vm_compute; split; reflexivity. Qed.
